@@ -116,6 +116,13 @@ package php7
 // by the table lemma lr-depth (a fixpoint over the tables as they stand).
 //@ drv lr-discipline yyp - yyR2[yyn] >= 0 at a reduction by rule yyn
 
+// termination of the driver's three inner loops (the two walks over the exception table, the recovery loop that
+// pops states): a variant per loop cut, non-negative and strictly decreasing on every path back to the cut.
+// The outer loop (yystack / yynewstate) consumes input or reduces; its termination is not proved.
+//@ drv variant-at for.body@1 : uf_yyExcaHdr(yystate) - xi
+//@ drv variant-at for.body@2 : uf_yyExcaEnd(yystate) - xi
+//@ drv variant-at for.loop@1 : yyp + 1
+
 // candidate invariants, instantiated at every cut point of the driver and pruned (Houdini)
 //@ drv inv yyrcvr != nil
 //@ drv inv typeis(yylex, "internal/php7.Parser") && as(yylex, "internal/php7.Parser") != nil
